@@ -117,4 +117,21 @@ theorem d6_original_never_returns :
 example : (run Mode.repaired 40 (init [{ start := 0, deadline := none, cancelAt := some 4200000 }] [])).callers =
     [({ start := 0, deadline := none, cancelAt := some 4200000 }, .done 300000 .ctx)] := by decide
 
+/-- D8 (the tree before its repair): a lone caller, no other context anywhere, and a service
+client whose requests fail after 10 s with an error that wraps a context error (its own
+timeout).  The failure is taken for somebody else's cancellation: thirty requests, and the
+caller hears of it only when the five-minute limit ends its wait. -/
+theorem d8_original_retries :
+    (run Mode.beforeD8 60 (init [{ start := 0, deadline := none, cancelAt := none }] (List.replicate 40 (.failCtx 10000)))).callers =
+      [({ start := 0, deadline := none, cancelAt := none }, .done 300000 .ctx)] ∧
+    (run Mode.beforeD8 60 (init [{ start := 0, deadline := none, cancelAt := none }] (List.replicate 40 (.failCtx 10000)))).requests.length = 30 := by
+  decide
+
+/-- the same with the repaired code: one request, the failed lookup reported when it fails -/
+example :
+    (run Mode.repaired 60 (init [{ start := 0, deadline := none, cancelAt := none }] (List.replicate 40 (.failCtx 10000)))).callers =
+      [({ start := 0, deadline := none, cancelAt := none }, .done 10000 .failed)] ∧
+    (run Mode.repaired 60 (init [{ start := 0, deadline := none, cancelAt := none }] (List.replicate 40 (.failCtx 10000)))).requests.length = 1 := by
+  decide
+
 end Setec.C16
